@@ -4,7 +4,7 @@
 # under /verif/seeded/<Cnn>-<X>/ (patch.diff, demo, meta.json).
 set -u
 export GOFLAGS=-mod=mod GOPROXY=off GOSUMDB=off GOTOOLCHAIN=local
-P="$1"; X="$2"; SRC="/tmp/seedout-$P"
+P="$1"; X="$2"; SRC="${SEED_SRC:-/tmp/seedout-$P}"
 WT="$(mktemp -d /tmp/xsel-seedchk-XXXXXX)"
 cleanup() { git -C /repo worktree remove --force "$WT" >/dev/null 2>&1; rm -rf "$WT"; git -C /repo worktree prune; }
 trap cleanup EXIT
